@@ -401,6 +401,13 @@ class Runner:
             self.stats["not_returned"] += nret
             ctx.cov["traces_validated_against_impl"] += len(hs)
             ctx.cov["evaluations"] += len(calls)
+        skipped = 0
+        for l in lines[-3:]:
+            if '"ev":"end"' in l:
+                e = json.loads(l)
+                skipped = e.get("skipped", 0)
+                self.stats["retried_histories"] = self.stats.get("retried_histories", 0) + e.get("retried", 0)
+                self.stats["skipped_histories"] = self.stats.get("skipped_histories", 0) + skipped
         byh = {}
         for l in lines:
             if '"ev":"call"' in l:
@@ -409,6 +416,8 @@ class Runner:
         for h in hs:
             reps = reports.get(h["id"])
             if not reps:
+                if skipped:
+                    continue    # the driver stopped early after repeated runaway calls (those are reported)
                 raise vlib.Inconclusive("no verdict printed for history %d in %s" % (h["id"], tag))
             good = [x for x in reps if not x["bad"]]
             ctx.count_case([h["mode"]] + h["steps"], nontrivial=len(h["steps"]) >= 2)
